@@ -12,7 +12,8 @@ F = fractions.Fraction
 SCALAR_CARRIERS = ['pyfloat', 'pyint', 'np.float64', 'np.float32', 'np.float16', 'np.int64', 'np.int32', 'np.int16',
                    'np.int8', 'np.uint64', 'np.uint32', 'np.uint16', 'np.uint8', '0d-f64', '0d-i64', 'decstr', 'pybool']
 ARRAY_CARRIERS = ['ndarray-f64', 'ndarray-f32', 'ndarray-i64', 'ndarray-i32', 'ndarray-u8', 'list', 'tuple', 'nested-list',
-                  'nested-tuple', 'list-decstr', 'ndarray-2d']
+                  'nested-tuple', 'list-decstr', 'ndarray-2d', 'list-np.int8', 'list-np.int16', 'tuple-np.int32', 'list-np.uint8', 'list-np.float16',
+                  'tuple-np.float32', 'list-np.uint16', 'list-mixed-np']
 ROUTES = ['ctor', 'call', 'set_val', 'setitem', 'setitem-slice', 'setitem-2d', 'call-reset', 'recfg', 'setitem-reuse',
           'resize-signed', 'resize-fmt', 'like-signed', 'widen-setitem']
 _OTHER = {'trunc': 'around', 'fix': 'ceil', 'floor': 'trunc', 'ceil': 'floor', 'around': 'fix', 'saturate': 'wrap', 'wrap': 'saturate'}
@@ -85,6 +86,22 @@ def make_array(np, carrier, vals):
         tp = {'ndarray-i64': np.int64, 'ndarray-i32': np.int32, 'ndarray-u8': np.uint8, 'ndarray-u16': np.uint16, 'ndarray-u32': np.uint32,
               'ndarray-i8': np.int8, 'ndarray-i16': np.int16, 'ndarray-u64': np.uint64}[carrier]
         return np.array([int(v) for v in vals], dtype=tp) if all(_exact(np, v, tp) for v in vals) else None
+    if carrier.startswith(('list-np.', 'tuple-np.')):      # a Python container of NumPy scalars of one (possibly narrow) type
+        tp = getattr(np, carrier.split('np.')[1])
+        if not all(_exact(np, v, tp) for v in vals):
+            return None
+        items = [tp(int(v)) if np.issubdtype(tp, np.integer) else tp(float(v)) for v in vals]
+        return items if carrier.startswith('list') else tuple(items)
+    if carrier == 'list-mixed-np':                         # Python numbers and NumPy scalars of several types side by side
+        out = []
+        for i, v in enumerate(vals):
+            cands = [t for t in (np.int8, np.int16, np.uint8, np.float16, np.float32, np.int32) if _exact(np, v, t)]
+            if i % 2 and cands:
+                t = cands[i % len(cands)]
+                out.append(t(int(v)) if np.issubdtype(t, np.integer) else t(float(v)))
+            else:
+                out.append(int(v) if v.denominator == 1 and i % 4 == 0 else float(v))
+        return out
     if carrier == 'ndarray-obj':
         return np.array([int(v) if v.denominator == 1 else float(v) for v in vals], dtype=object)
     if carrier == 'list':
